@@ -68,7 +68,8 @@ pub fn provenance_scope(tier: &str) -> TreeScope {
   let texts: &[&str] = trees::TEXTS_FULL;
   let mut leaves = trees::raw_leaves(&texts[..6]);
   leaves.extend(trees::orig_leaves(texts));
-  for t in ["{a}", "a ;b", " a\n", ";\n;", "a\n\n"] {
+  // (the last three: TAB and CR inside the run that follows a ';', '{' or '}')
+  for t in ["{a}", "a ;b", " a\n", ";\n;", "a\n\n", "a;\tb", "{\ta;}\t\tb", "a;\r\tb;\t"] {
     leaves.push(Term::orig(t, &format!("g{}", t.len() * 7 + t.as_bytes()[0] as usize)));
   }
   let mut small: Vec<Term> = Vec::new();
@@ -568,6 +569,23 @@ pub fn c06_pool(tier: &str) -> (Vec<Term>, Vec<Term>) {
     let mut s2 = (*s).clone();
     s2.map.root = Some("r".into());
     pool.push(Term::Sms(Box::new(s2)));
+  }
+  // sourcesContent for SOME sources only (the table is shorter than `sources`, or has an empty entry
+  // in the middle); the content-less source has a name of its own and is announced last / first
+  {
+    use crate::refcodec::Seg;
+    for (srcs, conts) in [(["s0", "p1"], vec!["ab\ncd"]), (["p1", "s0"], vec!["", "ab\ncd"])] {
+      let with = if srcs[0] == "s0" { 0 } else { 1 };
+      let without = 1 - with;
+      let mut m = MapSpec::new(
+        vec![Seg { gl: 1, gc: 0, orig: Some((with, 1, 0, None)) }, Seg { gl: 2, gc: 0, orig: Some((without, 1, 0, None)) }, Seg { gl: 2, gc: 1, orig: Some((with, 2, 0, Some(0))) }],
+        &srcs,
+        None,
+        &["n0"],
+      );
+      m.contents = Some(conts.iter().map(|c| c.to_string()).collect());
+      pool.push(Term::sms("ab\nxcd", "partial.js", m));
+    }
   }
   let named = trees::named_variants();
   pool.extend(named.iter().cloned());
